@@ -164,7 +164,7 @@ func c02R2(c *Ctx) {
 			bad := ""
 			var badPath *Path
 			accepted := 0
-			n, complete := WalkPaths(fn, PathOpts{MaxVisits: 2, MaxPaths: 60000}, func(p *Path) bool {
+			n, complete := WalkPathsInl(fn, PathOpts{MaxVisits: 2, MaxPaths: 60000}, func(p *Path) bool {
 				seen := false
 				at := 0
 				p.ForEach(func(i int, ins ssa.Instruction) bool {
